@@ -12,7 +12,7 @@ Inductive act :=
 | SClose                        (* call Close in a new goroutine *)
 | SAddCloser (r : option err)   (* AddCloser of a closer that will return r *)
 | SReturnCloser (j : nat)       (* tell user closer j to return its result *)
-| SFire                         (* let the grace period elapse *)
+| SAdvance (d : Z)              (* advance the clock by d >= 0 nanoseconds *)
 | SAdd (b : beh).               (* Add a runner (RunnerManager.Add / RunnerCloserManager.Add) *)
 
 (* ------------------------------------------------------------------------------------------ *)
@@ -50,9 +50,10 @@ Fixpoint settle (v : variant) (rounds : nat) (s : cstate) : cstate :=
 Definition rounds : nat := 12.
 
 (* goroutine index of user closer j *)
-Definition pidx (grace : bool) (j : nat) : nat := if grace then S j else j.
+Definition pidx (grace : option Z) (j : nat) : nat :=
+  match grace with Some _ => S j | None => j end.
 
-Definition do_act (v : variant) (grace : bool) (s : cstate) (a : act) : cstate :=
+Definition do_act (v : variant) (grace : option Z) (s : cstate) (a : act) : cstate :=
   settle v rounds
     (match a with
      | SRun => try_c v s CRunCas
@@ -61,11 +62,11 @@ Definition do_act (v : variant) (grace : bool) (s : cstate) (a : act) : cstate :
      | SClose => try_c v (try_c v s CCloseBegin) (CCloseStep (length (closes s)))
      | SAddCloser r => try_c v (try_c v s (CAddCloserCheck r)) (CAddCloserAppend (length (addcl s)))
      | SReturnCloser j => try_c v s (CCloserReturn (pidx grace j))
-     | SFire => try_c v s CFire
+     | SAdvance d => try_c v (try_c v s (CAdvance d)) CFire
      | SAdd b => try_c v (try_c v s (CAddCheck b)) (CAddAppend (length (cadds s)))
      end).
 
-Definition exec_c (v : variant) (grace : bool) (bs : list beh) (cls : list (option err))
+Definition exec_c (v : variant) (grace : option Z) (bs : list beh) (cls : list (option err))
            (script : list act) : cstate :=
   fold_left (do_act v grace) script (new_cm grace bs cls).
 
@@ -120,7 +121,7 @@ Definition n_user_closers (cls : list (option err)) (script : list act) : nat :=
 Definition n_runners (bs : list beh) (script : list act) : nat :=
   length bs + length (filter (fun a => match a with SAdd _ => true | _ => false end) script).
 
-Definition outcome_c (grace : bool) (nr nc : nat) (s : cstate) : outcome :=
+Definition outcome_c (grace : option Z) (nr nc : nat) (s : cstate) : outcome :=
   mko (match c_pc s with CDone errs => Some errs | _ => None end)
       (run_rejected s)
       (map (fun k => match k with KRet e => Some e | _ => None end) (closes s))
@@ -203,7 +204,7 @@ Definition eqb_outcome (a b : outcome) : bool :=
 (* ------------------------------------------------------------------------------------------ *)
 
 Inductive case :=
-| CMgr (grace : bool) (bs : list beh) (cls : list (option err)) (script : list act)
+| CMgr (grace : option Z) (bs : list beh) (cls : list (option err)) (script : list act)
        (trace : list obs)
 | CPlain (bs : list beh) (script : list act) (trace : list obs)
   (* stress: [races] concurrent AddCloser-vs-shutdown (kind 0) / Add-vs-Run (kind 1) /
@@ -217,8 +218,8 @@ Definition stress_oracle (bad : Z) : bool := (bad =? 0)%Z.
 Definition cfg_of (c : case) : cfg :=
   match c with
   | CMgr grace bs cls _ _ => mkcfg true grace (length bs) (length cls)
-  | CPlain bs _ _ => mkcfg false false (length bs) 0
-  | CStress _ _ _ => mkcfg false false 0 0
+  | CPlain bs _ _ => mkcfg false None (length bs) 0
+  | CStress _ _ _ => mkcfg false None 0 0
   end.
 
 Definition model_agrees (c : case) : bool :=
@@ -252,7 +253,7 @@ Definition run_cases (cs : list (Z * case)) : list (Z * Z) := failures check_cas
 (* smoke tests of the interface *)
 
 Example ex_two_runners_one_closer :
-  check_case (CMgr true [Free (Some 5%Z); OnCancel (Some 0%Z)] [Some 9%Z]
+  check_case (CMgr (Some 5%Z) [Free (Some 5%Z); OnCancel (Some 0%Z)] [Some 9%Z]
                    [SRun; SReturnRunner 0; SReturnCloser 0]
                    [ORunCall 0; ORunnerStart 0; ORunnerStart 1; ORunnerRet 0 (Some 5%Z);
                     ORunnerSeen 1; ORunnerRet 1 (Some 0%Z); OCloserStart 0;
@@ -261,7 +262,7 @@ Proof. vm_compute. reflexivity. Qed.
 
 (* a closer started while a runner is still running: the oracle objects *)
 Example ex_closer_too_early :
-  check_case (CMgr false [Free None; Free None] [None]
+  check_case (CMgr None [Free None; Free None] [None]
                    [SRun; SReturnRunner 0; SReturnRunner 1; SReturnCloser 0]
                    [ORunCall 0; ORunnerStart 0; ORunnerStart 1; ORunnerRet 0 None;
                     OCloserStart 0; ORunnerRet 1 None; OCloserRet 0 None; ORunRet 0 []]) = 2%Z.
@@ -275,18 +276,54 @@ Proof. vm_compute. reflexivity. Qed.
 
 (* fatal: grace elapsed while closer 0 had not returned *)
 Example ex_fatal :
-  check_case (CMgr true [] [None] [SRun; SFire; SReturnCloser 0]
-                   [ORunCall 0; OCloserStart 0; OFire; OFatal; OCloserRet 0 None; ORunRet 0 []])
+  check_case (CMgr (Some 5%Z) [] [None] [SRun; SAdvance 5%Z; SReturnCloser 0]
+                   [ORunCall 0; OCloserStart 0; OAdvance 5%Z; OFatal; OCloserRet 0 None; ORunRet 0 []])
   = 0%Z.
 Proof. vm_compute. reflexivity. Qed.
 
 Example ex_fatal_missing :
-  check_case (CMgr true [] [None] [SRun; SFire; SReturnCloser 0]
-                   [ORunCall 0; OCloserStart 0; OFire; OCloserRet 0 None; ORunRet 0 []]) = 3%Z.
+  check_case (CMgr (Some 5%Z) [] [None] [SRun; SAdvance 5%Z; SReturnCloser 0]
+                   [ORunCall 0; OCloserStart 0; OAdvance 5%Z; OCloserRet 0 None; ORunRet 0 []]) = 3%Z.
 Proof. vm_compute. reflexivity. Qed.
 
 (* Close before Run *)
 Example ex_close_before_run :
-  check_case (CMgr false [Free None] [None] [SClose; SRun]
+  check_case (CMgr None [Free None] [None] [SClose; SRun]
                    [OCloseCall 0; OCloseRet 0 []; ORunCall 0; ORunRet 0 [(-1)%Z]]) = 0%Z.
+Proof. vm_compute. reflexivity. Qed.
+
+(* grace period boundaries: 0 and negative elapse as soon as the clock is touched; one nanosecond
+   short is not enough; advances add up *)
+Example ex_grace_zero :
+  check_case (CMgr (Some 0%Z) [] [None] [SRun; SAdvance 0%Z; SReturnCloser 0]
+                   [ORunCall 0; OCloserStart 0; OAdvance 0%Z; OFatal; OCloserRet 0 None; ORunRet 0 []])
+  = 0%Z.
+Proof. vm_compute. reflexivity. Qed.
+
+Example ex_grace_zero_no_fatal_is_wrong :
+  check_case (CMgr (Some 0%Z) [] [None] [SRun; SAdvance 0%Z; SReturnCloser 0]
+                   [ORunCall 0; OCloserStart 0; OAdvance 0%Z; OCloserRet 0 None; ORunRet 0 []]) = 3%Z.
+Proof. vm_compute. reflexivity. Qed.
+
+Example ex_grace_negative :
+  check_case (CMgr (Some (-7)%Z) [] [None] [SRun; SAdvance 0%Z; SReturnCloser 0]
+                   [ORunCall 0; OCloserStart 0; OAdvance 0%Z; OFatal; OCloserRet 0 None; ORunRet 0 []])
+  = 0%Z.
+Proof. vm_compute. reflexivity. Qed.
+
+Example ex_grace_one_short :
+  check_case (CMgr (Some 5%Z) [] [None] [SRun; SAdvance 4%Z; SReturnCloser 0]
+                   [ORunCall 0; OCloserStart 0; OAdvance 4%Z; OCloserRet 0 None; ORunRet 0 []]) = 0%Z.
+Proof. vm_compute. reflexivity. Qed.
+
+Example ex_grace_one_short_fatal_is_wrong :
+  check_case (CMgr (Some 5%Z) [] [None] [SRun; SAdvance 4%Z; SReturnCloser 0]
+                   [ORunCall 0; OCloserStart 0; OAdvance 4%Z; OFatal; OCloserRet 0 None; ORunRet 0 []])
+  = 3%Z.
+Proof. vm_compute. reflexivity. Qed.
+
+Example ex_grace_adds_up :
+  check_case (CMgr (Some 5%Z) [] [None] [SRun; SAdvance 3%Z; SAdvance 2%Z; SReturnCloser 0]
+                   [ORunCall 0; OCloserStart 0; OAdvance 3%Z; OAdvance 2%Z; OFatal; OCloserRet 0 None;
+                    ORunRet 0 []]) = 0%Z.
 Proof. vm_compute. reflexivity. Qed.
